@@ -6,7 +6,8 @@ byte-level snapshots, C01 invariants, C09 reference semantics, C20 render checks
 
 import numpy as np
 
-DTYPES = ["bool", "int", "float", "str", "fixed", "date", "datetime", "object", "timedelta"]
+DTYPES = ["bool", "int", "float", "str", "fixed", "date", "datetime", "object", "timedelta",
+          "int32", "float32", "bytes", "datetime_s"]
 
 STRS = ["", "a", "b", "bb", "Zed", "ünï", "日本", "wide\U0001d4b3", "line\nbreak", "x" * 55, "y" * 50 + "z",
         "a b", "é"]
@@ -37,6 +38,14 @@ def build_column(dtype, values):
         return np.array(["NaT" if v is None else v for v in values], "datetime64[us]")
     if dtype == "object":
         return np.array(list(values) + [None], object)[:-1]
+    if dtype == "int32":
+        return np.array(values, "int32")
+    if dtype == "float32":
+        return np.array([np.nan if v is None else v for v in values], "float32")
+    if dtype == "bytes":
+        return np.array([v.encode() if isinstance(v, str) else v for v in values], "S4")
+    if dtype == "datetime_s":
+        return np.array(["NaT" if v is None else v for v in values], "datetime64[s]")
     if dtype == "timedelta":
         arr = np.array([0 if v is None else v for v in values], "int64").astype("timedelta64[s]")
         for i, v in enumerate(values):
@@ -49,8 +58,16 @@ def build_column(dtype, values):
 def gen_values(r, dtype, n, na_rate):
     out = []
     for _ in range(n):
-        if dtype not in ("bool", "int") and r.random() < na_rate:
+        if dtype not in ("bool", "int", "int32", "bytes") and r.random() < na_rate:
             out.append(None)
+        elif dtype == "int32":
+            out.append(r.choice([0, 1, 1, 2, -3, 7, 2 ** 31 - 1]))
+        elif dtype == "float32":
+            out.append(r.choice([0.0, 1.5, -2.25, 3.0, 3.0, 0.1]))
+        elif dtype == "bytes":
+            out.append(r.choice(["ab", "z", "abcd", "ab"]))
+        elif dtype == "datetime_s":
+            out.append(r.choice(["2020-01-01T10:00:00", "1999-12-31T23:59:59"]))
         elif dtype == "bool":
             out.append(r.random() < 0.5)
         elif dtype == "int":
